@@ -60,15 +60,22 @@ def nested_closure(it, con, fn, case):
     src = loader.from_code(fn.__code__)
     node = src.node
     for name in con.nested:
+        # a path element is a name (must be unique below the current node) or (name, k): the k-th def of
+        # that name in source order
+        name, idx = name if isinstance(name, tuple) else (name, None)
         found = [n for n in _ast.walk(node) if isinstance(n, (_ast.FunctionDef, _ast.AsyncFunctionDef)) and n.name == name and n is not node]
-        if len(found) != 1:
+        found.sort(key=lambda n: (n.lineno, n.col_offset))
+        if idx is None and len(found) != 1:
             raise I.OutsideSubset(f"nested function {name} not found exactly once in {fn.__qualname__}")
-        node = found[0]
+        if idx is not None and idx >= len(found):
+            raise I.OutsideSubset(f"nested function {name}#{idx} not found in {fn.__qualname__}")
+        node = found[idx or 0]
     free = case.nested_env(it) if getattr(case, "nested_env", None) else {}
     frame = I.Frame(dict(free), None, fn.__globals__, fn.__qualname__)
     defaults = [it.eval(d, frame) for d in node.args.defaults]
     kwdefaults = {a.arg: it.eval(d, frame) for a, d in zip(node.args.kwonlyargs, node.args.kw_defaults) if d is not None}
-    return Closure(node, frame, f"{fn.__qualname__}.<locals>.{'.'.join(con.nested)}", defaults, kwdefaults)
+    path = ".".join(n if isinstance(n, str) else f"{n[0]}#{n[1]}" for n in con.nested)
+    return Closure(node, frame, f"{fn.__qualname__}.<locals>.{path}", defaults, kwdefaults)
 
 
 def verify_case(con: C.Contract, case: C.Case, timeout_ms=10000) -> CaseReport:
